@@ -161,17 +161,24 @@ def abort_class(reason):
     return "other"
 
 
-def shows(sim, text, viol, tries=None):
+def shows(sim, text, viol, tries=None, os_seconds=25):
     """Does replaying `text` in a fresh process show violation `viol`? Returns (bool, info).
     A script whose threads are scheduled by the OS (policy=os) is tried several times."""
     if "policy=os" in text:
         n = tries or OS_TRIES[0]
         last = (False, {})
+        t_first = time.time()
         for k in range(n):
             last = shows_once(sim, text, viol)
             if last[0]:
                 last[1]["os_tries"] = k + 1
                 return last
+            # long scripts (a batch-export run takes about a second) get fewer repetitions:
+            # at most about 25 s per candidate
+            if k >= 3 and time.time() - t_first > os_seconds:
+                break
+            if out_of_time():
+                break
         return last
     return shows_once(sim, text, viol)
 
@@ -201,6 +208,19 @@ def shows_once(sim, text, viol):
     for e in res["evals"]:
         if e["key"] == key and (e["class"], e["digest"]) != (c[0], c[1]):
             return True, {"res": res, "got": e, "expected": {"class": c[0], "digest": c[1], "text": c[2]}, "expected_from": "the same query alone in a fresh process"}
+    if "policy=os" in text:
+        # threads scheduled by the OS: which request of the script is hit differs from one
+        # execution to the next. Any request of this replay that was answered in two ways, one of
+        # which is not its cold answer, shows the same violation.
+        seen = {}
+        for e in res["evals"]:
+            seen.setdefault(e["key"], set()).add((e["class"], e["digest"]))
+        twofold = [k for k, v in seen.items() if len(v) > 1][:3]
+        for k2 in twofold:
+            c2 = sim.cold(k2)
+            for e in res["evals"]:
+                if e["key"] == k2 and (e["class"], e["digest"]) != (c2[0], c2[1]):
+                    return True, {"res": res, "got": e, "expected": {"class": c2[0], "digest": c2[1], "text": c2[2]}, "expected_from": "the same query alone in a fresh process", "other_key": k2}
     return False, {"res": res}
 
 
@@ -462,10 +482,14 @@ def minimise_os(sim, runs, viol):
     seq = [{"attrs": dict(r["attrs"], policy="seq", sched="0"), "ops": r["ops"]} for r in runs]
     if shows_once(sim, render_script(seq), viol)[0]:
         runs = seq
-    good, info = shows(sim, render_script(runs), viol, tries=20)
-    if good:
-        return render_script(runs), info, n0, count_ops(runs)
-    return None, None, n0, n0
+    # the smaller script must show the violation reliably, not once by luck: three rounds of at most
+    # 20 executions each must all show it, otherwise the history as found is reported
+    info = None
+    for _ in range(3):
+        good, info = shows(sim, render_script(runs), viol, tries=20)
+        if not good:
+            return None, None, n0, n0
+    return render_script(runs), info, n0, count_ops(runs)
 
 
 MIRI_FLOAT = "-Zmiri-deterministic-floats"
@@ -924,6 +948,8 @@ def run_check(tier, seed):
         seen_keys.add(ident)
         if len(confirmed) + len(known_hits) >= cfg["max_minimise"]:
             break
+        if "stress worker" in c["source"] and sum(1 for u in unconfirmed if "stress worker" in u["source"]) >= 4:
+            continue  # four OS-scheduled observations that did not show again: the rest is not tried
         tlog("confirming %s %s (%d bytes of history)" % (c["obligation"], c["key"], len(c["history"])))
         good, info = shows(sim, c["history"], c)
         tlog("confirmed=%s" % good)
@@ -955,6 +981,8 @@ def run_check(tier, seed):
             mtext, minfo, n1 = c["history"], info, n0
         ob = classify(c, mtext, minfo)
         k = match_known(known, ob, c["key"], c["detail"])
+        if minfo.get("other_key"):
+            c = dict(c, key=minfo["other_key"], detail=c["detail"] + " (the replay shows the same violation on `%s`: the OS decides which request of the script is hit)" % minfo["other_key"])
         rec = {"property": "C10", "obligation": ob, "query": c["key"], "detail": c["detail"], "source": c["source"], "seed": seed, "tier": tier, "expected_from": minfo.get("expected_from", ""), "expected": strip(minfo.get("expected")), "got": strip(minfo.get("got")), "where": minfo.get("where", ""), "original_ops": n0, "minimised_ops": n1, "script": mtext, "replay_cmd": "python3 /verif/check.py C10 --replay <this file>"}
         if "policy=os" in mtext:
             rec["schedule"] = "threads scheduled by the operating system (stress sub-check): the replay is repeated until the violation shows (it did after %s of at most 20 tries); see DESIGN.md 3.7b" % minfo.get("os_tries", "?")
@@ -1210,7 +1238,7 @@ def replay_file(path):
     viol = {"obligation": "P" if rec["obligation"] == "P" else ("R" if rec["obligation"] == "R" else "A"), "key": rec["query"], "detail": rec.get("detail", "")}
     if rec["obligation"] == "P":
         viol["detail"] = (rec.get("got") or {}).get("text", "") or rec.get("detail", "")
-    good, info = shows(sim, rec["script"], viol, tries=40)
+    good, info = shows(sim, rec["script"], viol, tries=60, os_seconds=240)
     res = info.get("res") if good and "policy=os" in rec["script"] else sim.replay(rec["script"], log=True)
     print(rec["script"], end="")
     for l in res["raw"].splitlines():
@@ -1219,7 +1247,9 @@ def replay_file(path):
     shutil.rmtree(work, ignore_errors=True)
     if good:
         print("VIOLATION property=C10 replay=%s" % path)
-        print("  reproduced: obligation %s, query `%s`: got %s, expected %s (%s)" % (rec["obligation"], rec["query"], brief(strip(info.get("got")) if isinstance(info.get("got"), dict) else {"text": str(info.get("got"))}), brief(strip(info.get("expected")) if isinstance(info.get("expected"), dict) else {"text": str(info.get("expected"))}), info.get("expected_from", "")))
+        if info.get("other_key"):
+            print("  (threads scheduled by the OS: this execution shows the violation on `%s`)" % info["other_key"])
+        print("  reproduced: obligation %s, query `%s`: got %s, expected %s (%s)" % (rec["obligation"], info.get("other_key") or rec["query"], brief(strip(info.get("got")) if isinstance(info.get("got"), dict) else {"text": str(info.get("got"))}), brief(strip(info.get("expected")) if isinstance(info.get("expected"), dict) else {"text": str(info.get("expected"))}), info.get("expected_from", "")))
         sys.exit(1)
     print("not reproduced on the current tree: %s" % path)
     sys.exit(0)
